@@ -26,6 +26,107 @@ CORPUS = os.path.join(common.CORPUS_DIR, PROP)
 
 
 # ---------------------------------------------------------------------------------------------
+# budgets: no real-code call may hang the check, no loop may run past its wall deadline (cut = a count in the evidence, never a finding)
+
+
+class CaseTimeout(Exception):
+	"""one real-code evaluation ran longer than its budget (typical cost: milliseconds to a second)"""
+
+
+CASE_BUDGET_S = 45.0
+
+
+class budget:
+	"""`with budget(seconds):` raises CaseTimeout in the main thread when the body runs longer. The timer repeats, so real code
+	that swallows the first CaseTimeout in a broad `except` is interrupted again. A no-op outside the main thread."""
+
+	def __init__(self, seconds: float = CASE_BUDGET_S) -> None:
+		self.seconds = seconds
+		self.armed = False
+
+	def __enter__(self) -> 'budget':
+		import signal
+		import threading
+		if threading.current_thread() is threading.main_thread() and hasattr(signal, 'setitimer'):
+			def on_alarm(signum: int, frame: Any) -> None:
+				raise CaseTimeout(f'no result within {self.seconds:.0f}s')
+			import time
+			self.old = signal.signal(signal.SIGALRM, on_alarm)
+			self.prev = signal.setitimer(signal.ITIMER_REAL, self.seconds, 5.0)
+			self.t0 = time.time()
+			self.armed = True
+		return self
+
+	def __exit__(self, *a: Any) -> bool:
+		import signal
+		if self.armed:
+			signal.setitimer(signal.ITIMER_REAL, 0)
+			signal.signal(signal.SIGALRM, self.old)
+			if self.prev[0] > 0:   # nested use: give the enclosing budget what is left of its time
+				import time
+				signal.setitimer(signal.ITIMER_REAL, max(0.05, self.prev[0] - (time.time() - self.t0)), self.prev[1])
+		return False
+
+
+def budgeted(items: Any, seconds: float = CASE_BUDGET_S) -> Any:
+	"""`for x in budgeted(xs):` — every loop body runs under its own budget (armed before the item is handed out, disarmed when
+	the loop asks for the next one)."""
+	for x in items:
+		b = budget(seconds)
+		b.__enter__()
+		try:
+			yield x
+		finally:
+			b.__exit__()
+
+
+class Deadline:
+	"""total wall budget of one stream / search: generation stops when it is used up and the number of cases that were not
+	run is recorded in the histogram (`deadline-cut`); nothing is concluded from a cut."""
+
+	def __init__(self, ctx: Ctx, quick_s: float, thorough_s: float) -> None:
+		import time
+		self.t_end = time.time() + (thorough_s if ctx.thorough else quick_s)
+
+	def cut(self, hist: Any, done: int, planned: int) -> bool:
+		import time
+		if time.time() < self.t_end:
+			return False
+		hist['deadline-cut(cases not run)'] += max(planned - done, 1)
+		return True
+
+
+def guarded_stream(ctx: Ctx, name: str, fn: Any) -> Stream:
+	"""Safety net: a stream that dies (an exception type / result shape of the real code the stream did not foresee, a real call
+	over its budget) is a broken tie with the traceback as its disagreement — not a crash of the check."""
+	import traceback
+	try:
+		with budget(ctx.scale(400, 1500)):
+			return fn(ctx)
+	except common.InfraError:
+		raise
+	except Exception as e:  # noqa: BLE001
+		st = Stream(name)
+		st.disagreements.append({'case': 'stream aborted', 'real': exc_enum(e), 'model': '-', 'traceback': traceback.format_exc()[-1500:]})
+		return st
+
+
+def guarded_search(ctx: Ctx, label: str, fn: Any) -> SearchResult:
+	"""Safety net for a search: an unforeseen exception while evaluating a law on the real code is reported as a finding."""
+	import traceback
+	try:
+		with budget(ctx.scale(600, 2400)):
+			return fn(ctx)
+	except common.InfraError:
+		raise
+	except Exception as e:  # noqa: BLE001
+		res = SearchResult(f'{label} (ABORTED)')
+		res.findings.append(Finding(key=f'search-aborted:{label}:{exc_enum(e)}', what=f'the {label} search died with {exc_enum(e)}: {str(e)[:200]}',
+			replay={'origin': label, 'traceback': traceback.format_exc()[-1500:]}))
+		return res
+
+
+# ---------------------------------------------------------------------------------------------
 # real-code plumbing
 
 
@@ -75,7 +176,8 @@ class Real:
 		return Real(self.ctx)
 
 	def load(self, source: str) -> Any:
-		return self.app.module(source)
+		with budget():
+			return self.app.module(source)
 
 	def db(self) -> Any:
 		from rogw.tranp.semantics.reflection.db import SymbolDB
@@ -92,6 +194,11 @@ class Real:
 				if mod != self.app.main:
 					names.update(e.split('@')[0] for e in elems)
 			self._reserved = c08gen.Reserved(names)
+			try:
+				from translate import gen_c08_names
+				self._reserved.allow_member_words(gen_c08_names.member_words())
+			except Exception:  # noqa: BLE001 - the translator's failure is reported by translate(); without the table no member spelling is planted
+				pass
 		return self._reserved
 
 	def observe(self, source: str, with_types: bool = True) -> dict[str, Any]:
@@ -101,30 +208,43 @@ class Real:
 		from rogw.tranp.semantics.reflections import Reflections
 		obs: dict[str, Any] = {'out': None, 'error': None, 'keys': [], 'types': {}}
 		try:
-			module = self.load(source)
-			obs['out'] = self.app.resolve(Py2Cpp).transpile(module.entrypoint)
-		except Exception as e:  # noqa: BLE001
+			with budget():
+				module = self.load(source)
+				out = self.app.resolve(Py2Cpp).transpile(module.entrypoint)
+			if not isinstance(out, str):
+				raise TypeError(f'transpile returned {type(out).__name__}, not text')
+			obs['out'] = out
+		except Exception as e:  # noqa: BLE001 - includes CaseTimeout: the transpiler did not come back
 			obs['error'] = exc_enum(e)
 			obs['message'] = str(e)[:300]
 			return obs
-		main = self.app.main
-		db = self.db()
-		obs['keys'] = [k for k in db.keys() if k == main or k.startswith(f'{main}#')]
-		if with_types:
-			reflections = self.app.resolve(Reflections)
-			tys: dict[str, str] = {}
-			for k in obs['keys']:
-				try:
-					tys[f'key:{k}'] = str(reflections.from_fullyname(k))
-				except Exception as e:  # noqa: BLE001
-					tys[f'key:{k}'] = exc_enum(e)
-			for node in module.entrypoint.procedural():
-				if isinstance(node, (defs.Declable, defs.Var, defs.Relay, defs.FuncCall, defs.Indexer)):
-					try:
-						tys[f'node:{node.full_path}'] = str(reflections.type_of(node))
-					except Exception as e:  # noqa: BLE001
-						tys[f'node:{node.full_path}'] = exc_enum(e)
-			obs['types'] = tys
+		try:
+			with budget():
+				main = self.app.main
+				db = self.db()
+				obs['keys'] = [str(k) for k in db.keys() if k == main or str(k).startswith(f'{main}#')]
+				if with_types:
+					reflections = self.app.resolve(Reflections)
+					tys: dict[str, str] = {}
+					for k in obs['keys']:
+						try:
+							tys[f'key:{k}'] = str(reflections.from_fullyname(k))
+						except CaseTimeout:
+							raise
+						except Exception as e:  # noqa: BLE001
+							tys[f'key:{k}'] = exc_enum(e)
+					for node in module.entrypoint.procedural():
+						if isinstance(node, (defs.Declable, defs.Var, defs.Relay, defs.FuncCall, defs.Indexer)):
+							try:
+								tys[f'node:{node.full_path}'] = str(reflections.type_of(node))
+							except CaseTimeout:
+								raise
+							except Exception as e:  # noqa: BLE001
+								tys[f'node:{node.full_path}'] = exc_enum(e)
+					obs['types'] = tys
+		except Exception as e:  # noqa: BLE001 - reading the symbol table / the types of a program that transpiled must not fail either
+			obs['error'] = f'after-transpile:{exc_enum(e)}'
+			obs['message'] = str(e)[:300]
 		return obs
 
 
@@ -175,7 +295,7 @@ def legal_renaming(source: str, mapping: dict[str, str], reserved: c08gen.Reserv
 	if not mapping or len(set(mapping.values())) != len(mapping):
 		return False
 	for a, b in mapping.items():
-		if a not in domain or b in idents or not reserved.fresh_ok(b, a):
+		if a not in domain or b in idents or not reserved.fresh_ok(b, a, domain[a]):
 			return False
 	return True
 
@@ -277,14 +397,17 @@ def search_rename(ctx: Ctx) -> SearchResult:
 	# 2. generated programs × adversarial renamings
 	n_prog = ctx.scale(36, 125)
 	per_prog = ctx.scale(3, 5)
-	for origin, src, tag in program_stream(ctx, rng, n_prog):
+	deadline = Deadline(ctx, 80, 480)
+	for n_done, (origin, src, tag) in enumerate(program_stream(ctx, rng, n_prog)):
+		if deadline.cut(hist, n_done, n_prog):
+			break
 		try:
 			domain = c08gen.renaming_domain(src, reserved)
 		except SyntaxError:
 			continue
 		base = real.observe(src)
 		if base['error'] is not None:
-			hist[f'{tag}:outside-input-language'] += 1
+			hist[f'{tag}:outside-input-language' if 'CaseTimeout' not in base['error'] and not base['error'].startswith('after-transpile') else f"{tag}:P-not-observed:{base['error']}"] += 1
 			continue
 		idents = set(c08gen.IDENT_RE.findall(src))
 		ties = c08gen.structural_peers(src)
@@ -322,11 +445,76 @@ def search_rename(ctx: Ctx) -> SearchResult:
 					res.findings.append(f)
 			elif len(res.samples) < 2:
 				res.samples.append({'origin': origin, 'renaming': dict(list(mapping.items())[:4]), 'output_lines': len(base['out'].splitlines()), 'keys': len(base['keys']), 'typed_nodes': len(base['types'])})
+	# 3. member spellings: user members renamed INTO the words py2cpp.py compares member names with (generated table, this run)
+	try:
+		from translate import gen_c08_names
+		word_sets: list[list[str]] = []
+		for row in gen_c08_names.scan():
+			ws = sorted(w for w in row['words'] if w in reserved.member_words)
+			if row['role'] == 'member' and ws and ws not in word_sets:
+				word_sets.append(ws)
+	except Exception as e:  # noqa: BLE001 - reported by translate(); nothing to plant without the table
+		word_sets = []
+		ctx.notes.append(f'member-spelling programs not generated: name table unavailable ({type(e).__name__})')
+	all_words = sorted({w for ws in word_sets for w in ws})
+	avoid = c08gen.emitter_vocabulary() | reserved.words
+	rounds = ctx.scale(1, 4)
+	spell_deadline = Deadline(ctx, 40, 240)
+	spell_findings = 0
+	for n_done, (rnd, focus) in enumerate((a, ws) for a in range(rounds) for ws in word_sets):
+		if spell_deadline.cut(hist, n_done, rounds * len(word_sets)):
+			break
+		prng = random.Random(rng.getrandbits(48))
+		src, slots = c08gen.generate_spelling(prng, avoid=avoid)
+		base = real.observe(src)
+		if base['error'] is not None:
+			hist[f"spelling:P-not-observed:{base['error']}"] += 1
+			continue
+		idents = set(c08gen.IDENT_RE.findall(src))
+		pool = [w for w in focus if w not in idents]
+		prng.shuffle(pool)
+		rest = [w for w in all_words if w not in idents and w not in pool]
+		prng.shuffle(rest)
+		# the members that `for` statements and comprehensions iterate get the words of the focus site first; then every slot
+		iterated = ['pairs', 'nums']
+		prng.shuffle(iterated)
+		others = ['calc', 'text', 'field']
+		prng.shuffle(others)
+		full = dict(zip((slots[sl] for sl in iterated + others), pool + rest))
+		two = dict(list(full.items())[:2])
+		single = dict([prng.choice(list(full.items()))])
+		for mapping in ((two, full, single) if ctx.thorough else (two, full)):
+			if not mapping or not legal_renaming(src, mapping, reserved):
+				hist['spelling:renaming-outside-domain'] += 1
+				continue
+			res.cases += 1
+			seen.add(f'{hash(src)}:{sorted(mapping.items())}')
+			hist[f'spelling:|r|={len(mapping)}'] += 1
+			for w in mapping.values():
+				hist['fresh:member-spelling-of-the-generated-table'] += 1
+			r = check_pair(real, src, mapping, base)
+			if isinstance(r, tuple) and spell_findings < 2:
+				again = Real(ctx)
+				if not isinstance(check_pair(again, src, mapping), tuple):
+					ctx.notes.append(f'spelling#{n_done}: disagreement not reproduced on a fresh App (session history) — not reported here (C04)')
+					continue
+				f = finding_of(again, src, mapping, again.observe(src), f'spelling#{n_done}')
+				special = sorted(w for w in f.replay['renaming'].values() if w in reserved.member_words)
+				f.key = f"member-spelling:{'+'.join(special) or 'none'}:{f.key.rsplit(':', 1)[-1]}"
+				f.what = 'a user member renamed into a spelling py2cpp.py compares member names with: ' + f.what
+				spell_findings += 1
+				if f.key not in found_keys:
+					found_keys.add(f.key)
+					res.findings.append(f)
+			elif isinstance(r, tuple):
+				hist['violations-not-shrunk(findings already reported)'] += 1
 	res.distinct = len(seen)
 	res.histogram = dict(hist)
 	res.note = ('programs: nests (module names, classes, class vars, fields, methods, class methods, properties, nested classes, inheritance, enums, '
 		'functions, closures, flow-scoped locals with sibling re-declaration, comprehensions) + gen_prog; renamings injective, into names that are not '
-		'keyword/builtin/tranp-reserved (c08gen.Reserved), same underscore class, not occurring in P; domain excludes names the emitter can produce itself and data-string words')
+		'keyword/builtin/tranp-reserved (c08gen.Reserved), same underscore class, not occurring in P; domain excludes names the emitter can produce itself and data-string words; '
+		'member-spelling programs: one user class whose methods / field are iterated by for statements and comprehensions, called and assigned, renamed INTO every word set of '
+		'Generated/C08Names.lean (items/keys/values, list / dict / str method names, cvar verbs, name / value) — library names are reserved for everything but members')
 	return res
 
 
@@ -384,7 +572,7 @@ def stream_dsn(ctx: Ctx) -> Stream:
 		except Exception as e:  # noqa: BLE001
 			return exc_enum(e)
 
-	for i in range(ctx.scale(300, 4000)):
+	for i in budgeted(range(ctx.scale(300, 4000))):
 		malformed = i % 3 == 2
 		ops: list[str] = []
 		real: list[str] = []
@@ -493,7 +681,11 @@ def stream_real(ctx: Ctx) -> Stream:
 	libs = list(finder._SymbolFinder__library_paths)
 	cases = []
 	n_nodes = 0
-	for i in range(ctx.scale(10, 120)):
+	deadline = Deadline(ctx, 40, 300)
+	cut: Counter[str] = Counter()
+	for i in budgeted(range(ctx.scale(10, 120)), 2 * CASE_BUDGET_S):
+		if deadline.cut(cut, i, ctx.scale(10, 120)):
+			break
 		src, _ = c08gen.generate_nest(random.Random(rng.getrandbits(48)), 1 + i % 3)
 		if i % 3 == 1:
 			# the same program under an adversarial renaming: both spellings must be modelled alike
@@ -554,6 +746,7 @@ def stream_real(ctx: Ctx) -> Stream:
 			outs.append(out)
 		cases.append(({'kind': 'real', 'nodes': len(sample), 'table': len(db)}, ops, outs))
 	st = common.correspond('scope-real', cases, 'scope', classify=lambda d: f"nodes<{10 ** len(str(d['nodes']))}")
+	st.histogram.update(cut)
 	st.note = f'generated nests (every third one adversarially renamed) loaded by the real pipeline; real symbol table sent entry by entry; names/thisvar ops for sampled nodes, find + scopes ops for {n_nodes} symbolic nodes (with and without prop_name), by_standard words'
 	return st
 
@@ -662,7 +855,7 @@ def stream_synth(ctx: Ctx) -> Stream:
 	fk = _fakes()
 	cases = []
 	hist: Counter[str] = Counter()
-	for i in range(ctx.scale(150, 2500)):
+	for i in budgeted(range(ctx.scale(150, 2500))):
 		malformed = i % 5 == 4
 		db, ops, libs, paths = gen_world(rng, malformed)
 		finder = SymbolFinder(LibraryPaths([ModulePath(m, language='py') for m in libs]))
@@ -772,7 +965,7 @@ def stream_merge(ctx: Ctx) -> Stream:
 	rng = ctx.sub_rng('merge')
 	cases = []
 	flow = ['if@1', 'if@10', 'if@107', 'for@1', 'for@10', 'for@107', 'if_clause@11', 'if_clause@110', 'else@12', 'while@2', 'while@20', 'try@3', 'with@30']
-	for i in range(ctx.scale(250, 4000)):
+	for i in budgeted(range(ctx.scale(250, 4000))):
 		fn_scope = rng.choice(['m#f', 'm#ab', 'm#abc', 'm', 'pkg.mod#Abc.f', 'pkg.mod2#Abc.f'])
 		vars_ = []
 		for _ in range(rng.randint(2, 9)):
@@ -824,7 +1017,7 @@ def stream_merge(ctx: Ctx) -> Stream:
 		toks.append(')')
 		return toks
 
-	for i in range(ctx.scale(8, 80)):
+	for i in budgeted(range(ctx.scale(8, 80))):
 		src, _ = c08gen.generate_nest(random.Random(rng.getrandbits(48)), 2 + i % 2)
 		try:
 			module = real.load(src)
@@ -951,7 +1144,10 @@ def search_symtable(ctx: Ctx) -> SearchResult:
 	real = Real(ctx)
 	reserved = real.reserved()
 	hist: Counter[str] = Counter()
-	for i in range(ctx.scale(14, 110)):
+	deadline = Deadline(ctx, 30, 200)
+	for i in budgeted(range(ctx.scale(14, 110))):
+		if deadline.cut(hist, i, ctx.scale(14, 110)):
+			break
 		src, _ = c08gen.generate_nest(random.Random(rng.getrandbits(48)), 1 + i % 3)
 		variants = [('P', src, {})]
 		try:
@@ -1006,17 +1202,22 @@ def search_sibling_scopes(ctx: Ctx) -> SearchResult:
 	hist: Counter[str] = Counter()
 	name_sets = [('f', 'i', 'i'), ('abc', 'ab', 'ab'), ('walk', 'idx2', 'idx2')]
 	found = False
+	deadline = Deadline(ctx, 40, 240)
 	for names in name_sets[:ctx.scale(2, 3)]:
 		outcomes: dict[int, tuple[str, str]] = {}
 		ids: dict[int, list[int]] = {}
 		corpus_pads = [int(rec['pad']) for rec in corpus_cases() if rec.get('kind') == 'sibling' and tuple(rec.get('names', [])) == names]
-		for pad in sorted(set(range(0, ctx.scale(24, 120))) | set(corpus_pads)):
+		pads = sorted(set(range(0, ctx.scale(24, 120))) | set(corpus_pads))
+		for n_done, pad in enumerate(pads):
+			if pad != 0 and deadline.cut(hist, n_done, len(pads)):
+				break
 			src = two_loops(pad, names)
 			res.cases += 1
 			try:
-				module = real.load(src)
-				ids[pad] = [n.id for n in module.entrypoint.procedural() if isinstance(n, defs.For)]
-				out = real.app.resolve(Py2Cpp).transpile(module.entrypoint)
+				with budget():
+					module = real.load(src)
+					ids[pad] = [n.id for n in module.entrypoint.procedural() if isinstance(n, defs.For)]
+					out = real.app.resolve(Py2Cpp).transpile(module.entrypoint)
 				body = '\n'.join(ln for ln in out.splitlines() if 'printf(0)' not in ln)
 				outcomes[pad] = ('ok', body)
 			except Exception as e:  # noqa: BLE001
@@ -1073,6 +1274,11 @@ STATEMENTS = {
 	'regex_identifier_closed': 'in every pattern of PatternParser / CppViewHelper (generated from the source on this run) every character test other than a fixed literal treats all identifier characters [A-Za-z0-9_] alike',
 	'regex_charmap_invariant': 'for every generated pattern and EVERY text: fullmatch gives the same spans and groups on the text and on the text with its identifier characters permuted by any map fixing the identifier characters the pattern spells out',
 	'site_table_defects': 'the generated table of all 183 string-comparison / order-by-spelling / template sites (ast + template scan, audited verdicts) contains exactly two defective sites: the substring tests of func_call/list_sort.j2 (reproduced, proposal written, listed as a known finding); the Iterator / ItemsView prefix tests were repaired in 3ee1aa1',
+	'view_annotated_whole_name': "CppViewHelper.VarType.annotated('<type name><rest>', annotations, immutable types): const-qualified iff Embed::immutable or the WHOLE type name is listed (never by how the name begins); unchanged under Embed::mutable — for every type name and every rest that does not continue the name",
+	'view_annotated_const_prefix_counterexample': "REGRESSION (fixed 448468e): with startswith('const') instead of startswith('const ') the class constant annotated Embed::immutable stays by-value",
+	'view_var_type_origin': 'Param.var_type_origin of <name>, <name><…>, <name>…*, <name>…& and const <name>… is the whole type name, for every type name but the word const',
+	'view_super_initializer': "SuperInitializer.parse('<Base>::__init__(<args>);') = (Base, args) for every identifier Base and every ;-free argument text",
+	'name_sites_guarded': 'in the table generated from py2cpp.py on this run (every comparison of a user-controlled name with words the transpiler spells out), each comparison of a MEMBER name with words a user class may use (items, keys, values, pop, sort, split, on, raw, name, value, …) stands under a guard on the TYPE of the receiver (type_is / cvars.contains / cvars.equals / isinstance(.types) / a Py2Cpp predicate that is such a site)',
 	'equivariant': 'bundle of the equivariant_* theorems for an injective renaming that fixes the reserved words',
 	'string_refines': 'bundle of the string_refines_* theorems for well-formed names',
 }
@@ -1083,19 +1289,23 @@ def run(ctx: Ctx) -> int:
 		translate_ok, translate_msg = translate(ctx)
 	proof = common.prove(ctx, PROP, leanchecker=ctx.thorough)
 	with ctx.timed('correspondence'):
-		streams = [stream_dsn(ctx), stream_real(ctx), stream_synth(ctx), stream_merge(ctx), stream_naming(ctx), stream_fragments(ctx), stream_regex(ctx)]
+		streams = [guarded_stream(ctx, name, fn) for name, fn in (('dsn', stream_dsn), ('scope-real', stream_real), ('scope-synth', stream_synth),
+			('merge', stream_merge), ('naming', stream_naming), ('fragments', stream_fragments), ('regex', stream_regex), ('viewhelper', stream_viewhelper))]
 	with ctx.timed('search'):
-		searches = [search_rename(ctx), search_sibling_scopes(ctx), search_symtable(ctx), search_fragments(ctx)]
+		searches = [guarded_search(ctx, label, fn) for label, fn in (('rename', search_rename), ('sibling-scopes', search_sibling_scopes),
+			('symtable', search_symtable), ('fragments', search_fragments))]
 	return common.finish(ctx, proof, streams, searches,
 		translate_ok=translate_ok, translate_msg=translate_msg,
 		statements=STATEMENTS,
 		partial={
 			'proved': 'name resolution, scope construction, fullyname/scope/namespace and declaration merging are equivariant under injective renamings (abstract layer); '
-				'the string layer refines the abstract layer for identifier names for every modelled function, including VarsCollector._merged as repaired in 526fc7c',
-			'correspondence_only': 'that the two model layers are what the Python does (streams dsn, scope-real, scope-synth, merge)',
+				'the string layer refines the abstract layer for identifier names for every modelled function, including VarsCollector._merged as repaired in 526fc7c; '
+				'class naming, enum member lookup, the PatternParser regex helpers and the CppViewHelper type-name / base-class helpers return the parts of well-formed fragments verbatim and decide by whole names; '
+				'every member-name comparison of py2cpp.py is type-guarded (kernel-decided over the generated table)',
+			'correspondence_only': 'that the two model layers are what the Python does (streams dsn, scope-real, scope-synth, merge, naming, fragments, viewhelper); that the hand-written scanners of Fragment / ViewHelper equal the generated patterns (streams regex, viewhelper print both)',
 			'search_only': 'the whole-pipeline law transpile(r(P)) == r(transpile(P)) incl. templates and the regex/string post-processing of py2cpp.py:1679-1836, symbol keys, inferred type strings',
-			'not_modelled': 'the handler-less ClassDomainNaming.__namespace only on the string layer (dead from Py2Cpp); the CppViewHelper functions around their regexes (only the patterns themselves are generated + matched by the modelled engine) and the templates: search only; BlockParser: property C18',
-			'generated': 'Generated/C08Regex.lean (15 compiled patterns, via re._parser) and Generated/C08Sites.lean (132 comparison sites, ast scan vs translate/c08_sites_audited.json) are rewritten from the source on every run',
+			'not_modelled': 'the handler-less ClassDomainNaming.__namespace only on the string layer (dead from Py2Cpp); CppViewHelper.Param.parse (BlockParser: property C18) and Method.break_iterator_list_complex (its patterns are generated and matched, the function is not composed), Initializer.parse only as the composition over the generated patterns (no theorem), and the templates: search only',
+			'generated': 'Generated/C08Regex.lean (15 compiled patterns, via re._parser), Generated/C08Sites.lean (comparison sites, ast scan vs translate/c08_sites_audited.json) and Generated/C08Names.lean (every comparison of a user-controlled name of py2cpp.py with constant words, the words evaluated in the imported module, with the type guards around it) are rewritten from the source on every run; the word sets of C08Names also drive the member-spelling programs of the search',
 		},
 		assumptions=[
 			'names are non-empty strings without "." and "#" (every Python identifier; tranp scope words like if@115); module paths are non-empty without "#"',
@@ -1173,7 +1383,7 @@ def search_fragments(ctx: Ctx) -> SearchResult:
 	def ren(x: Any, m: dict[str, str]) -> Any:
 		return tuple(c08gen.rename_text(y, m) for y in x) if isinstance(x, tuple) else c08gen.rename_text(x, m)
 
-	for i in range(ctx.scale(400, 5000)):
+	for i in budgeted(range(ctx.scale(400, 5000))):
 		name = rng.choice(sorted(shapes))
 		s = shapes[name]()
 		toks = sorted({t for t in c08gen.IDENT_RE.findall(s) if t not in FRAG_RESERVED})
@@ -1250,7 +1460,7 @@ def stream_naming(ctx: Ctx) -> Stream:
 		except Exception as e:  # noqa: BLE001
 			return exc_enum(e)
 
-	for i in range(ctx.scale(200, 3000)):
+	for i in budgeted(range(ctx.scale(200, 3000))):
 		mod = rng.choice(MOD_POOL)
 		entry = fk['Entrypoint'](mp=mod)
 		depth = rng.randint(1, 4)
@@ -1305,7 +1515,7 @@ def stream_naming(ctx: Ctx) -> Stream:
 	real_app = Real(ctx)
 	from rogw.tranp.i18n.i18n import I18n
 	from rogw.tranp.implements.cpp.transpiler.py2cpp import Py2Cpp
-	for i in range(ctx.scale(6, 60)):
+	for i in budgeted(range(ctx.scale(6, 60))):
 		src, _ = c08gen.generate_nest(random.Random(rng.getrandbits(48)), 1 + i % 3)
 		try:
 			module = real_app.load(src)
@@ -1418,11 +1628,87 @@ def stream_regex(ctx: Ctx) -> Stream:
 	return st
 
 
+VIEW_TYPES = ['Box', 'Box::Item', 'constant', 'const_x', 'constBox', 'Const', 'std::string', 'std::vector', 'int', 'Iteratorx', 'A', 'const', 'a_b:c', 'x1']
+VIEW_SUFFIXES = ['', '', '<int>', '*', '&', '<int>&', '<Box::Item>*', ' *', ' &', '[]', '<std::map<std::string, int>>', ' ', '<', '&&', '*x']
+VIEW_IMMUTABLE = ['std::string', 'std::vector', 'std::map', 'std::function', 'Box', 'Box::Item', 'constant', 'const', 'std', 'Bo']
+VIEW_ANNOS = ['Embed::mutable', 'Embed::immutable', 'Embed::other', 'mutable', 'Embed::immutablex']
+
+
+def stream_viewhelper(ctx: Ctx) -> Stream:
+	"""The REAL CppViewHelper functions that take type names, base-class names and member initialisers apart vs the hand-written
+	scanners AND the compositions over the generated patterns (driver prints both; both must agree with the real result)."""
+	from rogw.tranp.implements.cpp.view.cpp_view_helper import CppViewHelper
+	rng = ctx.sub_rng('viewhelper')
+	cases = []
+	alphabet = 'ab_1:<>*& ;=(){}\t\nconst-.'
+
+	def noise(t: str) -> str:
+		chars = list(t)
+		for _ in range(rng.randint(1, 2)):
+			k = rng.random()
+			pos = rng.randrange(len(chars) + 1)
+			if k < 0.4 and chars:
+				chars[min(pos, len(chars) - 1)] = rng.choice(alphabet)
+			elif k < 0.7:
+				chars.insert(pos, rng.choice(alphabet))
+			elif chars:
+				del chars[min(pos, len(chars) - 1)]
+		return ''.join(chars)
+
+	def call(f: Any, show: Any) -> str:
+		try:
+			return show(f())
+		except Exception as e:  # noqa: BLE001
+			return exc_enum(e)
+
+	def two(x: str) -> str:
+		return f'H={x} G={x}'
+
+	pair = lambda ab: f'ok {hx(ab[0])}|{hx(ab[1])}'  # noqa: E731
+	text = lambda t: f'ok {hx(t)}'  # noqa: E731
+	for i in budgeted(range(ctx.scale(350, 5000))):
+		ops: list[str] = []
+		outs: list[str] = []
+		ty = rng.choice(VIEW_TYPES)
+		vt = rng.choice(['', '', 'const ', 'const  ', 'const\t', 'constant ']) + ty + rng.choice(VIEW_SUFFIXES)
+		if i % 5 == 4:
+			vt = rng.choice(['', '*p', '<x>', ' Box', 'const', 'const ', ':', noise(vt), ''.join(rng.choice(alphabet) for _ in range(rng.randint(0, 8)))])
+		annos = rng.sample(VIEW_ANNOS, rng.randint(0, 2)) if rng.random() < 0.6 else []
+		imm = rng.sample(VIEW_IMMUTABLE, rng.randint(0, 4))
+		ops.append(f'view.annotated\t{hx(vt)}\t{hl(annos)}\t{hl(imm)}')
+		outs.append(two(call(lambda: CppViewHelper.VarType.annotated(vt, annos, imm), text)))
+		ops.append(f'view.origin\t{hx(vt)}')
+		outs.append(two(call(lambda: CppViewHelper.Param(vt, 'x', '').var_type_origin, text)))
+		ops.append(f'view.immutable\t{hx(vt)}')
+		outs.append(call(lambda: CppViewHelper.VarType.to_immutable(vt), hx))
+		base = rng.choice(['Base', 'Base_2', 'B', 'constant', 'Box__init__', 'x1', 'Outer::Base', 'a.Base', ''])
+		args = rng.choice(['', '1', 'a, b', 'f(1), g(2)', 'a; b', '"x;"', 'a)', '(a', 'n\n'])
+		st = f'{base}::__init__({args});' + rng.choice(['', '', '', '\n', ' ', ';', '\n\n'])
+		if i % 4 == 3:
+			st = rng.choice([noise(st), st[:-1], st.replace('::', ':', 1), st.replace('__init__', rng.choice(['__init', 'init__', '__init__x', '__new__'])), ''])
+		ops.append(f'view.super\t{hx(st)}')
+		outs.append(two(call(lambda: CppViewHelper.SuperInitializer.parse(st), pair)))
+		field = rng.choice(['n', 'n_2', 'items', 'thisx', 'x1', 'const', ''])
+		ini = rng.choice([f'int this->{field} = 1;', f'std::string this->{field} = a + b;', f'Box this->{field}{{1, 2}};', f'Box this->{field}{{}};', f'int this->{field};',
+			f'Box::Item  this->{field}  =  f(x);', f'int this->{field} = this->m = 2;', f'this->{field} = 1;', f'int that->{field} = 1;', f'int this->{field} = a; b;',
+			f'int this->{field} =  ;', f'int this->{field} = 1;\n', f'A\nB this->{field} = 1;', f'int this->{field} {{1}};', f'int this->{field}{{a; b}};'])
+		if i % 6 == 5:
+			ini = noise(ini)
+		ops.append(f'view.init\t{hx(ini)}')
+		outs.append(call(lambda: CppViewHelper.Initializer.parse(ini), pair))
+		cases.append(({'malformed': i % 5 == 4 or i % 4 == 3}, ops, outs))
+	stream = common.correspond('viewhelper', cases, 'scope', classify=lambda d: 'noisy' if d['malformed'] else 'structured')
+	stream.note = ('CppViewHelper.VarType.annotated / to_immutable, Param.var_type_origin, SuperInitializer.parse, Initializer.parse on rendered type names '
+		'(names that begin with const, nested names, template arguments, pointers / references, qualifier with blanks and tabs), base-class calls and member initialisers, '
+		'with mutated and random texts; annotated / origin / super are answered twice by the model (hand-written scanner = the subject of the theorems, and the composition over the generated patterns)')
+	return stream
+
+
 def translate(ctx: Ctx) -> tuple[bool, str]:
 	"""Regenerate the C08 tables from the source; a translator that no longer understands its input breaks the tie."""
 	msgs = []
 	ok = True
-	for modname in ('gen_c08_regex', 'gen_c08_sites'):
+	for modname in ('gen_c08_regex', 'gen_c08_sites', 'gen_c08_names'):
 		try:
 			mod = __import__(f'translate.{modname}', fromlist=['generate'])
 			for rec in mod.generate():
@@ -1468,10 +1754,16 @@ def stream_fragments(ctx: Ctx) -> Stream:
 		except Exception as e:  # noqa: BLE001
 			return exc_enum(e)
 
-	for i in range(ctx.scale(600, 8000)):
+	def txt(f, s: str) -> str:
+		try:
+			return hx(f(s))
+		except Exception as e:  # noqa: BLE001
+			return exc_enum(e)
+
+	for i in budgeted(range(ctx.scale(600, 8000))):
 		s = gen_fragment(rng)
 		ops = [f'frag.relay\t{hx(s)}', f'frag.dictiter\t{hx(s)}', f'frag.subrelay\t{hx(s)}', f'frag.subto\t{hx(s)}', f'frag.classvar\t{hx(s)}']
-		outs = [grp(PatternParser.break_relay, s), grp(PatternParser.break_dict_iterator, s), hx(PatternParser.sub_cvar_relay(s)), hx(PatternParser.sub_cvar_to(s)), hx(PatternParser.pluck_class_var_name(s))]
+		outs = [grp(PatternParser.break_relay, s), grp(PatternParser.break_dict_iterator, s), txt(PatternParser.sub_cvar_relay, s), txt(PatternParser.sub_cvar_to, s), txt(PatternParser.pluck_class_var_name, s)]
 		# is_initializer_call(value, var_type): constructor calls, call chains, callees that merely begin with the type name
 		ty = rng.choice(['A', 'Widget', 'int', 'Box::BoxItem', 'std::vector<int>'])
 		callee = rng.choice([ty, ty, ty + '_build', ty + 'x', 'x' + ty, 'build', ty + '::make'])
@@ -1486,7 +1778,7 @@ def stream_fragments(ctx: Ctx) -> Stream:
 
 	# Enum.var_value on the enums of generated programs: members, and names that only share a prefix / suffix with a member
 	real = Real(ctx)
-	for i in range(ctx.scale(6, 50)):
+	for i in budgeted(range(ctx.scale(6, 50))):
 		src, _ = c08gen.generate_nest(random.Random(rng.getrandbits(48)), 1 + i % 2)
 		try:
 			module = real.load(src)
